@@ -25,9 +25,13 @@ class Run:
             sc, names = realize.build(c, variant, pool, seed)
         if rename is not None:
             sc, names = realize.rename_some(sc, names, rename)
+        self.broken = ''
         if reimport:
             from sismic.io import import_from_yaml, export_to_yaml
-            sc = import_from_yaml(export_to_yaml(sc))
+            try:
+                sc = import_from_yaml(export_to_yaml(sc))
+            except Exception as e:      # observed, not hidden: every call of this run reports it
+                self.broken = 'ReimportFailed:' + type(e).__name__
         self.sc, self.names = sc, names
         self.ids = {v: k for k, v in names.items()}
         self.probes = Probes()
@@ -106,6 +110,11 @@ class Run:
              'exc': '', 'eobj': 0, 'eidx': 0, 'log': [], 'chk': 1,
              'ign': self.opt['ignore'], 'hasl2': self.listener2 is not None, 'l2': [], 'mt': [],
              'ref': dict(NOREF)}
+        if self.broken:
+            o['exc'] = self.broken
+            o['post'] = self.state()
+            o['rtime'] = o['post']['time']
+            return o
         self.probes.arm(gv, o['cfail'])
         if self.mon is not None:
             self.mon.arm(o['mfail'])
